@@ -160,6 +160,18 @@ theorem compile_loop_refines_stabilizer_semantics (c : Circuit) (hgood : c.Good)
       some (TabSpec.gstate s'.t, sc) :=
   ⟨(Commute.stabRun_refines c hgood har seq d script s' h).1.valid, (Commute.stabRun_refines c hgood har seq d script s' h).2⟩
 
+/-- **and conversely (completeness)**: every run of the compile sequence that is possible in the group semantics — from
+    `|0…0⟩`, reading the outcome streams `F` completely — is produced by the compile loop in probabilistic mode under some
+    script of drawn bits: the loop ends in a tableau with exactly the final group and records exactly the outcomes read -/
+theorem compile_loop_complete_for_stabilizer_semantics (c : Circuit) (hgood : c.Good) (har : Commute.ArityOk c)
+    (seq : List Nat) (F : Commute.Script) (g' : TabSpec.GState)
+    (h : runSeq (Commute.appRaw c.ne c.np) (c.sops seq) (some (TabSpec.gstate (Tab.ket0 (c.ne + c.np)), F)) =
+      some (g', fun _ => [])) :
+    ∃ (script : List Bool) (s' : RunState),
+      stabRun c.ne c.np .prob script ((c.sops seq).map Commute.toCOp) = some s' ∧ TabSpec.gstate s'.t = g' ∧
+        F = Commute.feed c.ne c.np (c.sops seq) s'.outs (fun _ => []) :=
+  Commute.stabRun_complete c hgood har seq F g' h
+
 /-- **the tableau the stabilizer backend compiles to does not depend on the topological order**: two runs of the compile
     loop on the same sane circuit, along any two linear extensions of its DAG, under any measurement settings and scripts, in
     which every measuring operation recorded the same outcome (`hout`: the per-register outcome streams agree), end in
